@@ -751,3 +751,15 @@ Theorem C01_loop_helper_column_sound :
       WTrace h (resolve_flat h) strict n e ds tr st -> WTrace ha (resolve_flat ha) strict n e' ds tr st.
 Proof. exact helper_col_sound. Qed.
 Print Assumptions C01_loop_helper_column_sound.
+
+(* the per-call column of the single-successor insertions (InsCol.ins1_col_of) means what it says: value 1 =>
+   the hierarchy the implementation produced has every flat walk of the hierarchy before the call *)
+From V Require Import Model.InsCol.
+Theorem C01_single_successor_insertion_column_sound :
+  forall h ha lvl new e0 preds cls strict,
+    ins1_col_of h ha lvl new e0 preds cls = 1%Z ->
+    forall n e e' ds tr st,
+      (exists b p, find h n = Some b /\ n_kind b = KOrig p) -> E Fn e e' ->
+      WTrace h (resolve_flat h) strict n e ds tr st -> WTrace ha (resolve_flat ha) strict n e' ds tr st.
+Proof. exact ins1_col_sound. Qed.
+Print Assumptions C01_single_successor_insertion_column_sound.
